@@ -582,7 +582,65 @@ def check_posting(repo: Repo, rep: Report) -> None:
                 rep.finding("VID-5", SOLVER_FILE, "Solver.add_answer_key", "add_answer_key registers every variable",
                             f"add_answer_key() given {label} of variables #0..#2 leaves is_answer_key = {keys!r}", smod.func("Solver.add_answer_key").lineno)
                 return
-        rep.ok("VID-5", f"ensure / add_answer_key: {len(shapes)} nestings incl. one-shot iterables keep every item once, in order")
+        # add_answer_key given arrays and *views* of arrays (round 13: a fast path that took an array's variables for one run of
+        # consecutive ids, true only for arrays exactly as bool_array / int_array return them).  Declarations: x = bool_array(5)
+        # (ids 0..4), g = int_array((3, 2)) (ids 5..10), y = a lone bool_var (id 11); evaluated in the world that has array.py.
+        from .graphnative import GraphWorld
+
+        def S(*a: Any) -> slice:
+            return slice(*a)
+
+        views = [
+            ("the whole 1-D array x", lambda x, g, y: (x,), [0, 1, 2, 3, 4]),
+            ("the whole 2-D array g", lambda x, g, y: (g,), [5, 6, 7, 8, 9, 10]),
+            ("x[::2]", lambda x, g, y: (x[S(None, None, 2)],), [0, 2, 4]),
+            ("x[1:3]", lambda x, g, y: (x[S(1, 3)],), [1, 2]),
+            ("x[::-1][:2]", lambda x, g, y: (x[S(None, None, -1)][S(None, 2)],), [4, 3]),
+            ("the column g[:, 0] of a 3x2 array", lambda x, g, y: (g[(S(None), 0)],), [5, 7, 9]),
+            ("the column g[:, 1]", lambda x, g, y: (g[(S(None), 1)],), [6, 8, 10]),
+            ("the sub-rectangle g[1:, :1]", lambda x, g, y: (g[(S(1, None), S(None, 1))],), [7, 9]),
+            ("the row g[2, :] and the element x[3]", lambda x, g, y: (g[(2, S(None))], x[3]), [9, 10, 3]),
+            ("[x[3:], y] and g[0, 1]", lambda x, g, y: ([x[S(3, None)], y], g[(0, 1)]), [3, 4, 11, 6]),
+            ("x[:2] then, in a second call, x[2:]", lambda x, g, y: ((x[S(None, 2)],), (x[S(2, None)],)), [0, 1, 2, 3, 4]),
+            ("g[:, 1] then, in a second call, g[:, 0]", lambda x, g, y: ((g[(S(None), 1)],), (g[(S(None), 0)],)), [5, 6, 7, 8, 9, 10]),
+        ]
+        for label, mk, want_ids in views:
+            w = GraphWorld(repo)
+            cw = w.cw
+            s = w.solver()
+            xa = cw.method(s, "bool_array")(5)
+            ga = cw.method(s, "int_array")((3, 2), 0, 3)
+            ya = cw.method(s, "bool_var")()
+
+            class V:  # index an evaluated array through the repository's own __getitem__
+                def __init__(self, o: Any):
+                    self.o = o
+
+                def __getitem__(self, k: Any) -> Any:
+                    r = cw.method(self.o, "__getitem__")(k)
+                    return V(r) if isinstance(r, Obj) and "data" in r.attrs else r
+
+            def unwrap(a: Any) -> Any:
+                if isinstance(a, V):
+                    return a.o
+                if isinstance(a, (list, tuple)):
+                    return type(a)(unwrap(t) for t in a)
+                return a
+
+            args = mk(V(xa), V(ga), ya)
+            calls = [unwrap(c) for c in args] if "second call" in label else [unwrap(args)]
+            for call in calls:
+                cw.ev.steps = 0
+                cw.method(s, "add_answer_key")(*call)
+            keys = list(s.attrs.get("is_answer_key", []))
+            want = [i in want_ids for i in range(12)]
+            if keys != want:
+                rep.finding("VID-5", SOLVER_FILE, "Solver.add_answer_key", "add_answer_key registers every variable of an array view",
+                            f"add_answer_key() given {label} (variables #{want_ids}) registers "
+                            f"{[i for i, k in enumerate(keys) if k]} as answer keys", smod.func("Solver.add_answer_key").lineno)
+                return
+        rep.ok("VID-5", f"ensure / add_answer_key: {len(shapes)} nestings incl. one-shot iterables keep every item once, in order; "
+                        f"{len(views)} array / array-view arguments register exactly the view's variables")
     except (Undecided, IndexOutOfRange) as ex:
         rep.undecide("VID-5", str(ex))
     except Raised as ex:
